@@ -21,6 +21,9 @@ def classes_of(lines):
             # parenthesised text is split at every `|`, whatever its depth
             if n[0] == 'alt' and any(x[0] == 'alt' for c in n[1] for x in walk(c) if x is not n):
                 cl.add("nested-alternation")
+            # `[a <x> | b]`: inside brackets (without parentheses) the bar only alternates the two words next to it
+            if n[0] == 'optional' and n[1][0] == 'alt' and any(c[0] == 'seq' and len(c[1]) > 1 for c in n[1][1]):
+                cl.add("optional-alternation-of-sequences")
         nodes = list(walk(l))
         has_opt = any(x[0] in ('opt', 'anyopts') for x in nodes)
         if has_opt and any(x[0] == 'rep' for x in nodes):
@@ -47,7 +50,7 @@ def classes_of(lines):
     return sorted(cl)
 
 
-VALUED_SPELLINGS = ("-o", "--out", "--level", "-s", "--speed", "-m", "--mode", "--depth", "--allow", "-d", "--out-dir", "--ip")
+VALUED_SPELLINGS = ("-o", "--out", "--level", "-s", "--speed", "-m", "--mode", "--depth", "--allow", "-d", "--out-dir", "--ip", "--select", "--range")
 
 
 def k12_dangling_value(argv):
